@@ -367,8 +367,8 @@ class Exec(object):
                 sS, rest = self.fork(rest, strs)
                 if sS is not None:
                     x, y = Val.sv(a), Val.sv(b)
-                    lt = lambda p, q: z3.And(p != q, z3.StrLE(p, q))
-                    v = lt(x, y) if isinstance(op, ast.Lt) else z3.StrLE(x, y) if isinstance(op, ast.LtE) else lt(y, x) if isinstance(op, ast.Gt) else z3.StrLE(y, x)
+                    lt = lambda p, q: p < q
+                    v = lt(x, y) if isinstance(op, ast.Lt) else x <= y if isinstance(op, ast.LtE) else lt(y, x) if isinstance(op, ast.Gt) else y <= x
                     outs.append((sS, ('val', B(v))))
             if rest is not None:
                 # ordering between other kinds: TypeError unless both are containers of the same class (then: defined, value not modelled)
